@@ -1,6 +1,7 @@
 package main
 
 import (
+	"sort"
 	"fmt"
 	"go/token"
 	"strings"
@@ -102,7 +103,7 @@ func checkC45(c *Ctx, r *Report) {
 				}
 				if u, ok := strip(s.Elem).(*ssa.UnOp); ok {
 					if al, ok := u.X.(*ssa.Alloc); ok {
-						return al, true
+						return copySource(al), true
 					}
 				}
 			}
@@ -296,7 +297,7 @@ func checkC45(c *Ctx, r *Report) {
 			}
 			// key: the Name of the segment that is appended
 			_, kf, kb, okk := fieldOf(lk.Index)
-			return okk && kf == "Name" && (segAlloc == nil || canonBase(kb) == ssa.Value(segAlloc) || strip(kb) == ssa.Value(segAlloc))
+			return okk && kf == "Name" && (segAlloc == nil || copySourceV(canonBase(kb)) == ssa.Value(segAlloc) || copySourceV(strip(kb)) == ssa.Value(segAlloc))
 		}))}
 		if res := checkGuarded(m, fn, app, own); !res.OK {
 			problems = append(problems, "not guarded by "+rt.set+"[seg.Name]: "+res.String())
@@ -362,20 +363,61 @@ func checkC45(c *Ctx, r *Report) {
 			}
 		}
 	}
-	// isRouted consults all four sets
-	var ir *ssa.Function
-	for _, af := range anonFuncsOf(fn) {
-		if af.Name() == "ExplodeXML$1" {
-			ir = af
-		}
-	}
-	if ir != nil {
-		seen := map[string]bool{}
-		for _, b := range ir.Blocks {
+	// the routing predicate consults all four sets: the function called where a frame's Fields map is
+	// created, or — when the disjunction is written in line — a membership test of every set from
+	// whose positive edge the creation is reached
+	{
+		key := "isRouted consults all four sets (every routed segment collects fields)"
+		var creations []*ssa.Store
+		for _, b := range fn.Blocks {
 			for _, in := range b.Instrs {
-				if lk, ok := in.(*ssa.Lookup); ok {
-					if _, f, _, ok := fieldOf(lk.X); ok {
-						seen[f] = true
+				st, ok := in.(*ssa.Store)
+				if !ok {
+					continue
+				}
+				fa, ok := st.Addr.(*ssa.FieldAddr)
+				if !ok {
+					continue
+				}
+				if t, f, _, ok := fieldAddrInfo(fa); ok && f == "Fields" && strings.HasSuffix(t, "segmentFrame") {
+					if _, isMk := strip(st.Val).(*ssa.MakeMap); isMk {
+						creations = append(creations, st)
+					}
+				}
+			}
+		}
+		seen := map[string]bool{}
+		var where ssa.Instruction
+		for _, st := range creations {
+			where = st
+			for _, b := range fn.Blocks {
+				ifi, ok := b.Instrs[len(b.Instrs)-1].(*ssa.If)
+				if !ok {
+					continue
+				}
+				for si, truth := range []bool{true, false} {
+					l := litOf(ifi.Cond, truth)
+					if l.Neg || l.Op != token.ILLEGAL {
+						continue
+					}
+					var sets []string
+					switch x := strip(l.X).(type) {
+					case *ssa.Call:
+						if pf, _ := calleeOf(&x.Call); pf != nil {
+							sets = setsConsulted(pf)
+						}
+					case *ssa.Lookup:
+						if _, f, _, ok := fieldOf(x.X); ok {
+							sets = []string{f}
+						}
+					}
+					if len(sets) == 0 {
+						continue
+					}
+					if found, _, _ := search(SearchSpec{Start: Loc{b.Succs[si], 0}, Target: func(t ssa.Instruction) bool { return t == ssa.Instruction(st) }, Blocker: isTok}); found {
+						for _, s := range sets {
+							seen[s] = true
+						}
 					}
 				}
 			}
@@ -386,14 +428,14 @@ func checkC45(c *Ctx, r *Report) {
 				missing = append(missing, rt.set)
 			}
 		}
-		key := "isRouted consults all four sets (every routed segment collects fields)"
-		if len(missing) == 0 {
-			r.ok("C45.R2", key, m.Pos(ir.Pos()), "")
-		} else {
-			r.viol("C45.R2", key, m.Pos(ir.Pos()), "not consulted: "+strings.Join(missing, ", "))
+		switch {
+		case len(creations) == 0:
+			r.unresolved("C45.R2", key, "no creation of a frame's Fields map found")
+		case len(missing) == 0:
+			r.ok("C45.R2", key, m.Pos(where.Pos()), "")
+		default:
+			r.viol("C45.R2", key, m.Pos(where.Pos()), "not consulted: "+strings.Join(missing, ", "))
 		}
-	} else {
-		r.unresolved("C45.R2", "isRouted closure", "ExplodeXML$1 not found")
 	}
 
 	// ---- R3
@@ -545,17 +587,34 @@ func checkC45(c *Ctx, r *Report) {
 					continue
 				}
 				n++
-				g := Guard{cl(atomFn("isRouted(name)", func(l Lit) bool {
-					if l.Neg {
+				// routed = a positive answer of the routing predicate (a local function that consults
+				// the sets), or of a membership test of one of the four sets written in line
+				atoms := []Atom{atomFn("isRouted(name)", func(l Lit) bool {
+					if l.Neg || l.Op != token.ILLEGAL {
 						return false
 					}
 					call, ok := strip(l.X).(*ssa.Call)
 					if !ok {
 						return false
 					}
-					mc, ok := strip(call.Call.Value).(*ssa.MakeClosure)
-					return ok && mc.Fn.Name() == "ExplodeXML$1"
-				}))}
+					pf, _ := calleeOf(&call.Call)
+					return pf != nil && len(setsConsulted(pf)) > 0
+				})}
+				for _, rt := range routes {
+					set := rt.set
+					atoms = append(atoms, atomFn(set+"[name]", func(l Lit) bool {
+						if l.Neg || l.Op != token.ILLEGAL {
+							return false
+						}
+						lk, ok := strip(l.X).(*ssa.Lookup)
+						if !ok {
+							return false
+						}
+						_, f, _, okf := fieldOf(lk.X)
+						return okf && f == set
+					}))
+				}
+				g := Guard{cl(atoms...)}
 				guardVerdict(m, r, "C45.R3", key, fn, st, g)
 			}
 		}
@@ -563,4 +622,70 @@ func checkC45(c *Ctx, r *Report) {
 			r.unresolved("C45.R3", key, "no Fields map creation found")
 		}
 	}
+}
+
+
+// copySource: a local that is written exactly once, as a whole, with the value loaded from another
+// local (a by-value parameter of a folded helper, `x := y`) and never modified field by field holds
+// that other local's value; the original local is returned.
+func copySource(al *ssa.Alloc) *ssa.Alloc {
+	for depth := 0; depth < 4; depth++ {
+		if al.Referrers() == nil {
+			return al
+		}
+		var src *ssa.Alloc
+		n := 0
+		for _, ref := range *al.Referrers() {
+			switch x := ref.(type) {
+			case *ssa.Store:
+				if x.Addr == ssa.Value(al) {
+					n++
+					if u, ok := x.Val.(*ssa.UnOp); ok && u.Op == token.MUL {
+						src, _ = u.X.(*ssa.Alloc)
+					}
+				}
+			case *ssa.FieldAddr:
+				if x.Referrers() != nil {
+					for _, r2 := range *x.Referrers() {
+						if st, ok := r2.(*ssa.Store); ok && st.Addr == ssa.Value(x) {
+							n += 2 // modified in place: not a plain copy
+						}
+					}
+				}
+			}
+		}
+		if n != 1 || src == nil {
+			return al
+		}
+		al = src
+	}
+	return al
+}
+
+func copySourceV(v ssa.Value) ssa.Value {
+	if al, ok := v.(*ssa.Alloc); ok {
+		return copySource(al)
+	}
+	return v
+}
+
+
+// setsConsulted: the segmentSets fields a function looks a key up in.
+func setsConsulted(f *ssa.Function) []string {
+	seen := map[string]bool{}
+	for _, b := range f.Blocks {
+		for _, in := range b.Instrs {
+			if lk, ok := in.(*ssa.Lookup); ok {
+				if t, fld, _, ok := fieldOf(lk.X); ok && strings.HasSuffix(t, "segmentSets") {
+					seen[fld] = true
+				}
+			}
+		}
+	}
+	var out []string
+	for s := range seen {
+		out = append(out, s)
+	}
+	sort.Strings(out)
+	return out
 }
